@@ -28,6 +28,7 @@
 
 #define MAXRES 16
 static int v_code, v_defer;
+static int a_mode; static long a_defer = -1; static unsigned long a_count;   /* asq, see stepa() */
 static int cur_port = -1;   /* srvq: source port of the datagram being processed */
 static uint8_t *v_pl; static size_t v_pllen;
 static char names[MAXRES + 2][8];
@@ -82,7 +83,10 @@ static void hnd(coap_resource_t *r, coap_session_t *s, const coap_pdu_t *req, co
   const char *name = (const char *)coap_resource_get_userdata(r);
   coap_string_t *path = coap_get_uri_path(req);
   size_t len = 0; const uint8_t *data = NULL;
+  coap_async_t *as = a_mode ? coap_find_async(s, coap_pdu_get_token(req)) : NULL;
   if (hs.n) s_c(&hs, '/');
+  /* asq: the delayed invocation (coap_check_async) of the entry the application numbered <id> */
+  if (as) { s_s(&hs, "re"); s_u(&hs, (unsigned long)(uintptr_t)coap_async_get_app_data(as)); s_c(&hs, '>'); }
   s_s(&hs, name ? name : "?"); s_c(&hs, ':');
   s_u(&hs, coap_pdu_get_code(req)); s_c(&hs, ':');
   if (path) s_hex(&hs, path->s, path->length); else s_s(&hs, "null");
@@ -92,6 +96,16 @@ static void hnd(coap_resource_t *r, coap_session_t *s, const coap_pdu_t *req, co
   s_opts(&hs, req); s_c(&hs, ':');
   if (coap_get_data(req, &len, &data)) s_hex(&hs, data, len); else s_c(&hs, '-');
   coap_delete_string(path);
+  if (a_mode && !as && a_defer >= 0) {
+    /* separate response after a_defer ticks (0: until triggered): remember the request, set nothing now */
+    coap_async_t *a;
+    /* several separate Confirmable responses to one peer may be in flight (else the later ones wait in the session's
+     * delay queue for the acknowledgement of the first: C06) */
+    coap_session_set_nstart(s, 64);
+    a = coap_register_async(s, req, (coap_tick_t)a_defer);
+    if (a) coap_async_set_app_data(a, (void *)(uintptr_t)a_count++);
+    return;
+  }
   if (v_defer) {
     /* separate response later (RFC 7252 5.2.2): remember the request, set nothing now */
     if (!coap_find_async(s, coap_pdu_get_token(req))) coap_register_async(s, req, 0);
@@ -310,8 +324,164 @@ bad:
   sim_free_all(0);
 }
 
+/*   asq <mpr> <mts> <known> <unk> <prx> <res> <tmo>  { event }+
+ *
+ * Deferred responses (coap_async.c) at ONE server context, virtual clock, session idle timeout <tmo> seconds.  Events:
+ *   rx <peer> d<ticks>|r <verdict> <hex>   request datagram from peer (unicast); d<ticks>: the handler, if called for a request
+ *                                          coap_find_async() does not know, calls coap_register_async(session, request, ticks)
+ *                                          (0 = until triggered), attaches the registration count as app data and sets nothing;
+ *                                          r: it answers with <verdict>.  A handler called for a request coap_find_async() knows
+ *                                          (the delayed invocation) always answers with the event's <verdict>.
+ *   io <dt> <verdict>                      dt ticks pass; coap_check_async(ctx, now) (its return value is printed as w=), then
+ *                                          the I/O loop's prepare step (idle sessions)
+ *   tr <k> | sd <k> <ticks> | fr <k>       coap_async_trigger / coap_async_set_delay / coap_free_async on the k-th entry of
+ *                                          context->async_state
+ * A Confirmable response libcoap transmits is acknowledged by the peer at once (so nothing is retransmitted: C06).
+ * Output per event, joined by ` ;; `:
+ *   tx=… h=… a=<id:peer:delay:K:code:mid:tok:opts:payload>/…|- s=<peer:ref>/…|- w=<ticks>|-
+ * h: a delayed invocation is prefixed `re<id>>`; a: context->async_state in list order with the stored copy of the request;
+ * s: the endpoint's sessions with their reference count, sorted by peer. */
+#define MAXEV 64
+static void ack_cons(coap_endpoint_t *ep, unsigned from) {
+  for (unsigned i = from; i < sim_ntx; i++) {
+    sim_dgram_t *d = &sim_tx[i];
+    /* (read from the bytes: sim_decode() does not decode RFC 8974 extended tokens) */
+    if (d->len >= 4 && (d->data[0] >> 6) == 1 && ((d->data[0] >> 4) & 3) == 0 && d->data[1] != 0) {
+      uint8_t ack[4] = { 0x60, 0, d->data[2], d->data[3] };
+      coap_address_t src; coap_address_copy(&src, &d->dst);
+      sim_inject_endpoint(ep, &src, ack, 4);
+    }
+  }
+}
+static coap_async_t *nth_async(coap_context_t *ctx, long k) {
+  coap_async_t *a = ctx->async_state;
+  while (a && k-- > 0) a = a->next;
+  return a;
+}
+static int cmp_pair(const void *a, const void *b) { return ((const int *)a)[0] - ((const int *)b)[0]; }
+static void dump_async(coap_context_t *ctx, coap_endpoint_t *ep) {
+  coap_async_t *a; coap_session_t *s, *tmp; int first = 1;
+  int pr[SIM_MAX_SESS][2]; int n = 0;
+  printf(" a=");
+  for (a = ctx->async_state; a; a = a->next) {
+    sbuf b = { NULL, 0, 0 };
+    size_t len = 0; const uint8_t *data = NULL;
+    s_u(&b, (unsigned long)(uintptr_t)a->appdata); s_c(&b, ':');
+    s_u(&b, (unsigned long)(coap_address_get_port(&a->session->addr_info.remote) - 40000)); s_c(&b, ':');
+    s_u(&b, (unsigned long)a->delay); s_c(&b, ':');
+    s_c(&b, sim_kind[a->pdu->type & 3]); s_c(&b, ':');
+    s_u(&b, a->pdu->code); s_c(&b, ':'); s_u(&b, (uint16_t)a->pdu->mid); s_c(&b, ':');
+    s_hex(&b, a->pdu->actual_token.s, a->pdu->actual_token.length); s_c(&b, ':');
+    s_opts(&b, a->pdu); s_c(&b, ':');
+    if (coap_get_data(a->pdu, &len, &data)) s_hex(&b, data, len); else s_c(&b, '-');
+    printf("%s%s", first ? "" : "/", b.b); first = 0; free(b.b);
+  }
+  if (first) printf("-");
+  SESSIONS_ITER(ep->sessions, s, tmp) {
+    if (n < SIM_MAX_SESS) { pr[n][0] = coap_address_get_port(&s->addr_info.remote) - 40000; pr[n][1] = (int)s->ref; n++; }
+  }
+  qsort(pr, (size_t)n, sizeof pr[0], cmp_pair);
+  printf(" s=");
+  for (int i = 0; i < n; i++) printf("%s%d:%d", i ? "/" : "", pr[i][0], pr[i][1]);
+  if (!n) printf("-");
+}
+static int all_digits(const char *s) { if (!*s || strlen(s) > 9) return 0; for (; *s; s++) if (*s < '0' || *s > '9') return 0; return 1; }
+static int ok_verdict(const char *v) {
+  const char *c = strchr(v, ':'); size_t l; uint8_t *b;
+  if (!c || strchr(c + 1, ':') || c == v) return 0;
+  for (const char *q = v; q < c; q++) if (*q < '0' || *q > '9') return 0;
+  b = h_unhex(c + 1, &l); if (!b) return 0; free(b);
+  return 1;
+}
+static void stepa(char *line) {
+  char *w[9 + 5 * MAXEV];
+  int n = h_words(line, w, 9 + 5 * MAXEV);
+  coap_context_t *ctx; coap_endpoint_t *ep;
+  int i, tmo, out = 0;
+  if (n < 10) { printf("bad-op"); return; }
+  /* validate every event before anything runs */
+  if (!all_digits(w[7]) || (tmo = atoi(w[7])) < 1 || tmo > 1000) { printf("bad-op"); return; }
+  for (i = 8; i < n;) {
+    if (!strcmp(w[i], "rx") && i + 4 < n + 0) {
+      size_t l; uint8_t *b;
+      if (!all_digits(w[i + 1]) || atoi(w[i + 1]) > 15) break;
+      if (strcmp(w[i + 2], "r") && !(w[i + 2][0] == 'd' && all_digits(w[i + 2] + 1))) break;
+      if (!ok_verdict(w[i + 3])) break;
+      b = h_unhex(w[i + 4], &l); if (!b) break; free(b);
+      i += 5;
+    } else if (!strcmp(w[i], "io") && i + 2 < n) {
+      if (!all_digits(w[i + 1]) || !ok_verdict(w[i + 2])) break;
+      i += 3;
+    } else if ((!strcmp(w[i], "tr") || !strcmp(w[i], "fr")) && i + 1 < n) {
+      if (!all_digits(w[i + 1])) break;
+      i += 2;
+    } else if (!strcmp(w[i], "sd") && i + 2 < n) {
+      if (!all_digits(w[i + 1]) || !all_digits(w[i + 2])) break;
+      i += 3;
+    } else break;
+  }
+  if (i != n) { printf("bad-op"); return; }
+  if (!setup(w, &ctx, &ep)) { printf(ctx ? "bad-op" : "fail"); if (ctx) sim_free_all(0); return; }
+  coap_context_set_session_timeout(ctx, (unsigned)tmo);
+  a_mode = 1; a_count = 0; cur_port = -1;
+  for (i = 8; i < n;) {
+    unsigned tx0 = sim_ntx;
+    coap_tick_t wt = 0; int have_w = 0;
+    txs.n = hs.n = 0; if (txs.b) txs.b[0] = 0; if (hs.b) hs.b[0] = 0;
+    a_defer = -1;
+    if (!strcmp(w[i], "rx")) {
+      coap_address_t src; uint8_t *dg; size_t dglen;
+      if (w[i + 2][0] == 'd') a_defer = atol(w[i + 2] + 1);
+      set_verdict(w[i + 3]);
+      dg = h_unhex(w[i + 4], &dglen);
+      sim_addr(&src, 40000 + atoi(w[i + 1]));
+      sim_inject_endpoint(ep, &src, dg, dglen);
+      free(dg);
+      ack_cons(ep, tx0);
+      a_defer = -1;
+      coap_lock_lock(ctx, goto locked);
+      wt = coap_check_async(ctx, sim_now);
+      coap_lock_unlock(ctx);
+      have_w = 1;
+      sim_prepare(ctx);
+      i += 5;
+    } else if (!strcmp(w[i], "io")) {
+      set_verdict(w[i + 2]);
+      sim_now += (coap_tick_t)atol(w[i + 1]);
+      coap_lock_lock(ctx, goto locked);
+      wt = coap_check_async(ctx, sim_now);
+      coap_lock_unlock(ctx);
+      have_w = 1;
+      ack_cons(ep, tx0);
+      sim_prepare(ctx);
+      i += 3;
+    } else if (!strcmp(w[i], "tr")) {
+      coap_async_t *a = nth_async(ctx, atol(w[i + 1]));
+      if (a) coap_async_trigger(a);
+      i += 2;
+    } else if (!strcmp(w[i], "fr")) {
+      coap_async_t *a = nth_async(ctx, atol(w[i + 1]));
+      if (a) coap_free_async(a->session, a);
+      i += 2;
+    } else {
+      coap_async_t *a = nth_async(ctx, atol(w[i + 1]));
+      if (a) coap_async_set_delay(a, (coap_tick_t)atol(w[i + 2]));
+      i += 3;
+    }
+    printf("%stx=%s h=%s", out++ ? " ;; " : "", txs.n ? txs.b : "-", hs.n ? hs.b : "-");
+    dump_async(ctx, ep);
+    if (have_w) printf(" w=%llu", (unsigned long long)wt); else printf(" w=-");
+  }
+locked:
+  a_mode = 0; a_defer = -1;
+  sim_tx_logger = NULL;
+  sim_free_all(0);
+}
+
 static void step_any(char *line) {
-  if (!strncmp(line, "srvq ", 5)) stepq(line); else step(line);
+  if (!strncmp(line, "srvq ", 5)) stepq(line);
+  else if (!strncmp(line, "asq ", 4)) stepa(line);
+  else step(line);
 }
 
 H_MAIN_LOOP(step_any)
